@@ -227,6 +227,10 @@ func cmpTyped(m *Model, t T, orig, got any, path string, out *[]Diff) {
 			cls = "empty-array-becomes-null"
 		} else if mm, isMap := orig.(map[string]any); isMap && len(mm) == 0 && got == nil {
 			cls = "empty-map-becomes-null"
+		} else if l, isList := got.([]any); isList && len(l) == 0 && orig == nil {
+			cls = "null-becomes-empty-array"
+		} else if mm, isMap := got.(map[string]any); isMap && len(mm) == 0 && orig == nil {
+			cls = "null-becomes-empty-map"
 		}
 		*out = append(*out, Diff{Path: path, Class: cls, Detail: d, FieldKind: t.Kind})
 	}
